@@ -134,6 +134,43 @@ def pc_term(pc):
     return parts[0] if len(parts) == 1 else ("bool", "and", parts)
 
 
+_LEN0 = ("const", 0)
+
+
+def branch_polarity(cond):
+    """(test in its positive form, branches swapped?) for the test of an if / conditional expression: `not c`, `a != b`, `a is not b`,
+    `a not in b` branch like their positive forms with the branches exchanged; for a length, `len(x) > 0`, `len(x) >= 1`, `len(x) != 0`
+    are all 'not (len(x) == 0)'."""
+    swap = False
+    for _ in range(8):
+        if cond[0] == "un" and cond[1] == "not":
+            cond, swap = cond[2], not swap
+            continue
+        if cond[0] == "cmp":
+            op, l, r = cond[1], cond[2], cond[3]
+            if op in ("!=", "is not", "not in"):
+                cond, swap = ("cmp", {"!=": "==", "is not": "is", "not in": "in"}[op], l, r), not swap
+                continue
+            if l[0] == "call" and l[1] == ("global", "len") and r[0] == "const" and isinstance(r[1], int):
+                if (op, r[1]) in ((">", 0), (">=", 1)):
+                    cond, swap = ("cmp", "==", l, _LEN0), not swap
+                    continue
+                if (op, r[1]) in (("<", 1), ("<=", 0)):
+                    cond = ("cmp", "==", l, _LEN0)
+                    continue
+        break
+    return cond, swap
+
+
+def nonempty_entry(entry):
+    """x when the path-condition entry says len(x) != 0 (canonical form: (len(x) == 0, False)), else None"""
+    c, pol = entry
+    if c[0] == "cmp" and c[2][0] == "call" and c[2][1] == ("global", "len") and len(c[2][2]) == 1 and c[3] == _LEN0:
+        if (c[1] == "==" and not pol) or (c[1] in ("!=", ">") and pol):
+            return c[2][2][0]
+    return None
+
+
 def own_conditions(summary, pc):
     """the entries of a path condition that are NOT just 'an earlier guard clause did not fire' (the complement of the last condition of
     some return / raise with the same prefix): what genuinely restricts the statement"""
@@ -315,8 +352,8 @@ class _Eval:
         cond = self.expr(st.test)
         body, orelse = st.body, st.orelse
         # canonical polarity: `if not c: A else: B` is the same branching as `if c: B else: A`
-        while cond[0] == "un" and cond[1] == "not":
-            cond = cond[2]
+        cond, swap = branch_polarity(cond)
+        if swap:
             body, orelse = orelse, body
         a = self.fork()
         a.pc = self.pc + ((cond, True),)
@@ -636,8 +673,9 @@ class _Eval:
 
     def e_IfExp(self, e):
         c, a, b = self.expr(e.test), self.expr(e.body), self.expr(e.orelse)
-        while c[0] == "un" and c[1] == "not":
-            c, a, b = c[2], b, a
+        c, swap = branch_polarity(c)
+        if swap:
+            a, b = b, a
         dg = _dict_get(c, a, b)
         if dg is not None:
             return dg
@@ -821,8 +859,8 @@ class _Eval:
                 and not (ft[1][0] == "call" and ft[1][1][0] == "global" and ft[1][1][1].split(".")[-1] in ("set", "dict", "list", "frozenset")):
             # Series / array arithmetic methods without options are the operators: a.sub(b).div(b) is (a - b) / b
             return ("bin", _ARITH_METHODS[ft[2]], ft[1], args[0])
-        if ft[0] == "attr" and ft[2] == "assign" and not args and kws and all(k_ is not None and v_[0] == "const" for k_, v_ in kws):
-            # frame.assign(col=<constant>) is a copy of the frame with that column set: the spelling `c = frame.copy(); c[col] = <constant>`
+        if ft[0] == "attr" and ft[2] == "assign" and not args and kws and all(k_ is not None and v_[0] not in ("lambda", "closure", "global", "unknown") for k_, v_ in kws):
+            # frame.assign(col=<value>) (no callable) is a copy of the frame with that column set: the spelling `c = frame.copy(); c[col] = <value>`
             out_ = ("call", ("attr", ft[1], "copy"), (), ())
             for k_, v_ in kws:
                 out_ = ("setitem", out_, ("const", k_), v_)
